@@ -20,8 +20,11 @@ CASES = [
     ("bare-defined-dashed", "acm-toplas", THREE), ("bare-defined-colon", "ieee:tc", THREE), ("bare-defined-dotted", "j.acm", THREE),
     ("bare-defined-digit-first", "2nd", THREE),
     # the same reference in several fields of one entry: each is resolved and recorded
+    # a string whose own content is a bare word naming another string (or itself): the field takes that content as it is, no chain is followed
+    ("bare-defined-chained", "jt", "s1"), ("bare-defined-self-named", "own", "own"), ("bare-defined-chained-undefined", "ju", "zz"),
     ("bare-defined-again", "s1", ONE), ("bare-undefined-again", "zz", "zz"), ("bare-defined-third-time", "s1", ONE), ("bare-defined-2-again", "s2", TWO),
 ]
+CHAINED = [("jt", "s1"), ("own", "own"), ("ju", "zz")]
 
 
 def run(P: Program, rep: Report):
@@ -50,6 +53,7 @@ def run(P: Program, rep: Report):
                 s3 = mk("String", key='"q"', value="QQ", start_line=0, raw="r3")
                 s4 = mk("String", key="{b}", value="BB", start_line=0, raw="r4")
                 odd = [mk("String", key=k_, value=THREE, start_line=0, raw="r5") for k_ in ("acm-toplas", "ieee:tc", "j.acm", "2nd")]
+                odd += [mk("String", key=k_, value=v_, start_line=0, raw="r6") for k_, v_ in CHAINED]
                 order = {"before": [s1, s2, s3, s4] + odd + [e, e2, e3], "after": [e, e2, e3, s2, s1, s4, s3] + odd, "duplicated": [s1, e, s1b, s2, s3, s4, e2, e3] + odd, "none": [e, e2, e3]}[layout]
                 lib = new_obj(it, P, "library", "Library")
                 call(it, lib, "add", AList(order))
@@ -69,13 +73,28 @@ def run(P: Program, rep: Report):
                 strs = [(it.get_attr(s, "key"), it.get_attr(s, "value")) for s in it.iterate(it.get_attr(out, "blocks")) if isinstance(s, AObj) and s.cls.name == "String"]
                 nblocks = len(it.iterate(it.get_attr(out, "blocks")))
                 mk_ = call(it, mw, "metadata_key") if cls.find_method("metadata_key") else None
-                return ("return", (vals, meta, meta2, strs, nblocks, len(order), mk_, v2, m1))
+                # the same middleware object is then given another document: s1 is defined differently there and s2 not at all
+                lib2 = new_obj(it, P, "library", "Library")
+                e9 = mk("Entry", entry_type="a", key="k9", fields=AList([mk("Field", key="p", value="s1", start_line=0), mk("Field", key="q", value="s2", start_line=0)]), start_line=0, raw="r")
+                call(it, lib2, "add", AList([mk("String", key="s1", value='"changed"', start_line=0, raw="r1"), e9]))
+                try:
+                    out2 = call(it, mw, "transform", lib2)
+                    ent9 = it.iterate(it.get_attr(out2, "entries"))[0]
+                    again = [it.get_attr(f, "value") for f in it.iterate(it.get_attr(ent9, "fields"))]
+                except Raised as r:
+                    again = f"raises {r.cls_name()}"
+                except (Unsupported, LoopBound) as u:
+                    raise AnalysisError(f"C11.R1: analyser cannot follow a second ResolveStringReferences.transform: {u}")
+                return ("return", (vals, meta, meta2, strs, nblocks, len(order), mk_, v2, m1, again))
             for ctx, (kind, v) in explore(one, 50):
                 n += 1
                 if kind == "raise":
                     bad.setdefault(f"raises:{layout}", f"transform raises {v.cls_name()} ({layout})")
                     continue
-                vals, meta, meta2, strs, nblocks, nin, mkey, v2, m1 = v
+                vals, meta, meta2, strs, nblocks, nin, mkey, v2, m1, again = v
+                if again != ['"changed"', "s2"]:
+                    bad.setdefault("second-document", f"the same middleware object applied to a second document (s1 = \"changed\", s2 undefined) gives field values {again!r}, "
+                                                      f"expected ['\"changed\"', 's2']: state kept from the first document ({layout})")
                 if v2 != (TWO if layout != "none" else "s2"):
                     bad.setdefault("second-entry", f"a reference in a later entry becomes {v2!r} ({layout})")
                 r1 = m1.items.get(mkey) if isinstance(m1, ADict) else None
@@ -86,7 +105,7 @@ def run(P: Program, rep: Report):
                     w = want if layout != "none" else val
                     if got != w:
                         bad.setdefault(f"value:{lab}", f"field value {val!r} becomes {got!r}, expected {w!r} (definitions {layout}, first definition wins)")
-                    if w != val:
+                    if lab.startswith("bare-defined") and layout != "none":
                         resolved.append(f"f{CASES.index((lab, val, want))}")
                 rec = None
                 if isinstance(meta, ADict):
@@ -99,7 +118,7 @@ def run(P: Program, rep: Report):
                 if isinstance(meta2, ADict) and meta2.items.get(mkey):
                     bad.setdefault("metadata-other-entry", "an entry without references gets a resolution record")
                 x3, x4 = ('"q"', "QQ"), ("{b}", "BB")
-                oddp = [(k_, THREE) for k_ in ("acm-toplas", "ieee:tc", "j.acm", "2nd")]
+                oddp = [(k_, THREE) for k_ in ("acm-toplas", "ieee:tc", "j.acm", "2nd")] + list(CHAINED)
                 want_strs = {"before": [("s1", ONE), ("s2", TWO), x3, x4] + oddp, "after": [("s2", TWO), ("s1", ONE), x4, x3] + oddp,
                              "duplicated": [("s1", ONE), ("s2", TWO), x3, x4] + oddp, "none": []}[layout]
                 if strs != want_strs or nblocks != nin:
